@@ -195,6 +195,15 @@ func (ma *mountAnalysis) sliceElems(s ssa.Value, at ssa.Instruction, depth int) 
 			}
 		}
 	}
+	// a slice the function accumulates itself with append: meet over what it appends
+	if elems, from, _, ok := sliceSources(s); ok && len(elems) > 0 {
+		st := mUnknown
+		for i, e := range elems {
+			ss, _ := ma.topic(e, from[i], depth+1)
+			st = meet(st, ss)
+		}
+		return st, fmt.Sprintf("elements appended to the slice (%d append(s))", len(elems))
+	}
 	return mUnknown, "slice " + short(core.Term(s), 60)
 }
 
@@ -342,7 +351,15 @@ func (ma *mountAnalysis) publishTopic(p ssa.Value, at ssa.Instruction, depth int
 				}
 			}
 			if ia, ok := x.X.(*ssa.IndexAddr); ok {
-				_ = ia
+				// an element of a slice the function accumulates itself: meet over what it appends
+				if elems, from, _, ok := sliceSources(ia.X); ok && len(elems) > 0 {
+					st := mUnknown
+					for i, e := range elems {
+						s, _ := ma.publishTopic(e, from[i], depth+1)
+						st = meet(st, s)
+					}
+					return st, fmt.Sprintf("element of a slice accumulated here (%d append(s))", len(elems))
+				}
 			}
 		}
 	case *ssa.Phi:
@@ -575,10 +592,7 @@ func checkC17(c *Ctx) {
 	trim := c.cm(ru2, "wasp/sessions", "Session", "TrimMountPoint")
 	if o := c.outbound(ru2); o != nil && trim != nil {
 		if fan := c.fanOut(o); ru2.Anchor(fan != nil, "the fan-out function") {
-			var lookup *core.Call
-			for _, g := range core.CallsTo(fan, o.localGet) {
-				lookup = g
-			}
+			lookup := c.fanLookup(o, fan)
 			for i, pk := range c.deliveryPackets(o, fan) {
 				c.R.Fn(c.fname(pk.alloc.Parent()))
 				key := fmt.Sprintf("outgoing topic #%d (packet built in %s)", i+1, c.fname(pk.alloc.Parent()))
@@ -589,7 +603,7 @@ func checkC17(c *Ctx) {
 					continue
 				}
 				recv := deepStrip(cv.Call.Args[0])
-				okRecv := lookup != nil && recv == lookup.Value()
+				okRecv := lookup != nil && (recv == lookup.sess || recv == lookup.get.Value())
 				// the packet goes to that same recipient: the arming call's session argument, or the Writer() the direct write uses
 				okWriter := false
 				for _, cl := range c.callsDeep(fan, 2) {
